@@ -41,4 +41,31 @@ def appendLoopNoCopy (h : Heap) (root cur : Option Nat) (log : List Nat) : List 
 def appendNoCopy (h : Heap) (id : Nat) (args : List Val) : Heap × Option Nat × List Nat :=
   appendLoopNoCopy h (some id) (some (tailOf h (fuelOf h) id)) [] args
 
+/-! ### a cached `tail` hint (the variant of round 7): the first error of a chain remembers the last one -/
+
+/-- the heap with the hint of every cell beside it -/
+structure CHeap where
+  h : Heap
+  tl : Array (Option Nat)
+
+/-- where `Append` starts: the hint when there is one, else the walk -/
+def tailC (s : CHeap) (id : Nat) : Nat :=
+  match s.tl[id]? with
+  | some (some t) => t
+  | _ => tailOf s.h (fuelOf s.h) id
+
+/-- `Append` onto the non-empty `*Error` `id`: start at the hint, clear the hint on the copies it makes, record the new last
+    cell on the root -/
+def appendC (s : CHeap) (id : Nat) (args : List Val) : CHeap :=
+  let r := appendLoop s.h (some id) (some (tailC s id)) [] args
+  { h := r.1,
+    tl := (s.tl ++ Array.replicate (r.1.size - s.h.size) none).setIfInBounds id (some (tailOf r.1 (fuelOf r.1) id)) }
+
+/-- element `i` of `WrappedErrors()` as a value of its own: `eCopy := *err; eCopy.next = nil` — with `copyHint` the hint is
+    copied by value along with the rest of the struct (the defect), without it the copy has no hint -/
+def elemC (copyHint : Bool) (s : CHeap) (id i : Nat) : CHeap :=
+  match (wrappedErrors s.h id)[i]?, (chain s.h (fuelOf s.h) id)[i]? with
+  | some n, some j => { h := s.h.push n, tl := s.tl.push (if copyHint then (s.tl[j]?).getD none else none) }
+  | _, _ => s
+
 end Errs
